@@ -155,7 +155,8 @@ Record world := mkworld {
   w_count : nat;                          (* system calls issued so far *)
   w_plan : option (nat * fault);          (* fail the system call with this index *)
   w_trace : list (op * option errno);     (* issued system calls with their results *)
-  w_stderr : list (errkind * path)        (* ERROR lines written by TechErrorf *)
+  w_stderr : list (errkind * path);       (* ERROR lines written by TechErrorf *)
+  w_saved : bool                          (* `autofixed`, the result of the latest SaveAutofixChanges *)
 }.
 
 Definition sys (o : op) (w : world) : world * option errno :=
@@ -166,15 +167,18 @@ Definition sys (o : op) (w : world) : world * option errno :=
   match hit with
   | Some fl =>
     (mkworld (step_fault (w_st w) o fl) (S (w_count w)) (w_plan w)
-             (w_trace w ++ [(o, Some (fl_errno fl))]) (w_stderr w), Some (fl_errno fl))
+             (w_trace w ++ [(o, Some (fl_errno fl))]) (w_stderr w) (w_saved w), Some (fl_errno fl))
   | None =>
     let (s', r) := step (w_st w) o in
-    (mkworld s' (S (w_count w)) (w_plan w) (w_trace w ++ [(o, r)]) (w_stderr w), r)
+    (mkworld s' (S (w_count w)) (w_plan w) (w_trace w ++ [(o, r)]) (w_stderr w) (w_saved w), r)
   end.
 
 (* Logger.TechErrorf: one line on stderr, nothing else (no counter, no exit status) *)
 Definition tech_error (k : errkind) (loc : path) (w : world) : world :=
-  mkworld (w_st w) (w_count w) (w_plan w) (w_trace w) (w_stderr w ++ [(k, loc)]).
+  mkworld (w_st w) (w_count w) (w_plan w) (w_trace w) (w_stderr w ++ [(k, loc)]) (w_saved w).
+
+Definition set_saved (b : bool) (w : world) : world :=
+  mkworld (w_st w) (w_count w) (w_plan w) (w_trace w) (w_stderr w) b.
 
 (* os.WriteFile(name, data, perm):
      f, err := OpenFile(name, O_WRONLY|O_CREATE|O_TRUNC, perm); if err != nil { return err }
@@ -194,15 +198,16 @@ Definition write_file (name : path) (data : str) (perm : N) (w : world) : world 
 Definition tmp_suffix : str := [46; 112; 107; 103; 108; 105; 110; 116; 46; 116; 109; 112]. (* ".pkglint.tmp" *)
 Definition tmp_name (f : path) : path := f ++ tmp_suffix.
 
-(* the body of `for filename := range changed` in SaveAutofixChanges *)
+(* SaveAutofixChanges for lines of one changed file: `autofixed` starts false,
+   then the body of `for filename := range changed` *)
 Definition save_one (f : path) (new : str) (w : world) : world :=
   let tmp := tmp_name f in
-  match write_file tmp new 438 (* 0666 *) w with
+  match write_file tmp new 438 (* 0666 *) (set_saved false w) with
   | (w1, Some _) => tech_error CannotWrite tmp w1              (* continue *)
   | (w1, None) =>
     match sys (Rename tmp f) w1 with
     | (w2, Some _) => tech_error CannotOverwrite tmp w2        (* continue *)
-    | (w2, None) => w2                                         (* autofixed = true *)
+    | (w2, None) => set_saved true w2                          (* autofixed = true *)
     end
   end.
 
@@ -213,34 +218,47 @@ Definition chmod_fix (f : path) (mode : N) (w : world) : world :=
   | (w1, None) => w1
   end.
 
-(* what one --autofix run does to the tree, in order *)
+(* what one --autofix run does to the tree, in order.  Two callers look at the
+   result of SaveAutofixChanges:
+     plist.go   PlistChecker.Check: sorter.Sort() saves the sorted lines;
+                `if !sorter.autofixed { SaveAutofixChanges(plainLines) }`   = AIfSaved false
+     patches.go `if SaveAutofixChanges(ck.lines) && pkg != nil { pkg.AutofixDistinfo(..) }`
+                (which ends in another SaveAutofixChanges)                    = AIfSaved true *)
 Inductive action :=
 | ASave (f : path) (new : str)
-| AChmod (f : path) (mode : N).
+| AChmod (f : path) (mode : N)
+| AIfSaved (b : bool) (f : path) (new : str).
 
 Definition run_action (w : world) (a : action) : world :=
   match a with
   | ASave f new => save_one f new w
   | AChmod f mode => chmod_fix f mode w
+  | AIfSaved b f new => if Bool.eqb (w_saved w) b then save_one f new w else w
   end.
 
 Definition run (prog : list action) (w : world) : world := fold_left run_action prog w.
 
 Definition init_world (s : state) (plan : option (nat * fault)) : world :=
-  mkworld s 0 plan [] [].
+  mkworld s 0 plan [] [] false.
 
 (* ---------- the same protocol as a plain list (no fault) ---------- *)
 
 Definition save_ops (f : path) (new : str) : list op :=
   [Open 0 (tmp_name f) 438; Write 0 new; Close 0; Rename (tmp_name f) f].
 
-Definition action_ops (a : action) : list op :=
-  match a with
-  | ASave f new => save_ops f new
-  | AChmod f mode => [Chmod f (N.ldiff mode 73)]
+(* without a fault every save succeeds (Proofs: run_nofault), so the condition of
+   AIfSaved is known: `saved` = has the latest save succeeded *)
+Fixpoint prog_ops_from (saved : bool) (prog : list action) : list op :=
+  match prog with
+  | [] => []
+  | ASave f new :: rest => save_ops f new ++ prog_ops_from true rest
+  | AChmod f mode :: rest => Chmod f (N.ldiff mode 73) :: prog_ops_from saved rest
+  | AIfSaved b f new :: rest =>
+    if Bool.eqb saved b then save_ops f new ++ prog_ops_from true rest
+    else prog_ops_from saved rest
   end.
 
-Definition prog_ops (prog : list action) : list op := flat_map action_ops prog.
+Definition prog_ops (prog : list action) : list op := prog_ops_from false prog.
 
 (* ---------- other ways to write the file, all refuted by the crash spec ---------- *)
 
